@@ -31,7 +31,7 @@ RULE = ("every Message subclass (introspection): base message of its required pa
 ASSUMPTIONS = ["cryptojwt JWS verification is correct (exercised: tampered and foreign-key tokens)",
                "JSON floats are outside the Gallina value universe: the float row of the type matrix is oracle-only"]
 
-IMP = ["Lib.Base", "Lib.PyStr", "Lib.MsgSchema", "Model.Msg", "Model.MsgCheck"]
+IMP = ["Lib.Base", "Lib.PyStr", "Lib.MsgSchema", "Model.Msg", "Model.MsgRules", "Model.MsgCheck"]
 EMPTY = (None, "", [], {}, [""])
 
 
@@ -66,7 +66,7 @@ class Run:
         self.rng = ctx.rng
         self.classes = C.discover()
         self.byname = dict(self.classes)
-        self.cases = {"verify": [], "construct": [], "authz": []}
+        self.cases = {"verify": [], "construct": [], "authz": [], "rules": []}
         self.kj = build_keyjar([{"type": "RSA", "use": ["sig"]}, {"type": "EC", "crv": "P-256", "use": ["sig"]}])
         self.kj.import_jwks(self.kj.export_jwks(private=True), "https://op.example")
         self.kj.import_jwks(self.kj.export_jwks(private=True), "c")
@@ -457,103 +457,404 @@ class Run:
                 inp = "(%s, %s, %s)" % (coq_str(cname), coq_opt(kw, coq_str, "pystr"), coq_msg(before))
                 self.cases["authz"].append(("(%s, %s)" % (inp, res), inp, rec))
 
-    def other_rules(self):
-        """RegistrationRequest / RegistrationResponse / IdToken: truth tables, oracle only"""
-        from idpyoidc.message.oidc import RegistrationRequest, RegistrationResponse, IdToken
+    # ------------------------------------------------------------ C2. the other classes' rules
+    NOW = 1700000000
+
+    def set_clock(self, on):
+        import idpyoidc.time_util as tu
+        import idpyoidc.message.oidc as mo
+        import idpyoidc.message.oidc.session as ms
+        if on:
+            self._clock = (tu.utc_time_sans_frac, mo.utc_time_sans_frac, ms.utc_time_sans_frac)
+            f = lambda: self.NOW   # noqa
+            tu.utc_time_sans_frac = mo.utc_time_sans_frac = ms.utc_time_sans_frac = f
+        else:
+            tu.utc_time_sans_frac, mo.utc_time_sans_frac, ms.utc_time_sans_frac = self._clock
+
+    def rule_case(self, rule, cname, args, kw, oracle, inject=None):
+        """one row of a truth table: build the message, run the real verify(), hand the same row to the
+        model (class_rules) and apply the rule oracle `oracle(message after, kwargs) -> [what is wrong]`
+        when verify() accepted"""
         ctx = self.ctx
-        # RegistrationResponse: registration_client_uri and registration_access_token both or neither
-        for uri, at in itertools.product([None, "https://op/reg?c=1"], [None, "tok"]):
+        cls = self.byname[cname]
+        b = attempt(lambda: cls(**copy.deepcopy(args)))
+        rec = {"class": cname, "rule": rule, "args": canon(args), "verify_kwargs": canon(kw), "inject": canon(inject)}
+        if b[0] == "exc":
+            ctx.count("rules:%s:not-constructible" % rule)
+            return
+        m = b[1]
+        for k, v in (inject or {}).items():
+            m._dict[k] = copy.deepcopy(v)
+        before = canon(dict(m._dict))
+        try:
+            r = m.verify(**copy.deepcopy(kw))
+            out = ("ok", r is not False)
+        except Exception as e:   # noqa
+            out = ("exc", type(e).__name__)
+        accepted = out == ("ok", True)
+        ctx.case_seen(rec, accepted)
+        ctx.count("rules:%s:%s" % (rule, "accepted" if accepted else ("returned-False" if out[0] == "ok" else "refused")))
+        if accepted:
+            bad = oracle(m, kw)
+            if bad:
+                ctx.violation("rules:" + cname.split(".")[-1], "verify(%r) of %s accepted %r: %s"
+                              % (kw, cname, before, "; ".join(bad)), rec)
+            self.schema_oracle(cname, cls, m, rec, "verify()")
+        after = canon(dict(m._dict))
+        if not (pure_json(before) and pure_json(after) and pure_json(kw)):
+            ctx.unmodelled += 1
+            return
+        if out[0] == "exc" and out[1] not in C.EXC:
+            ctx.count("skipped-model:exception-class:" + out[1])
+            return
+        inp = "(%s, %s, %s, %s, %s)" % (coq_str(rule), coq_str(cname), E.coq_z(self.NOW), coq_msg(kw), coq_msg(before))
+        res = "(Ok (%s, %s))" % (E.coq_bool(out[1]), coq_msg(after)) if out[0] == "ok" else "(Err %s)" % C.EXC[out[1]]
+        self.cases["rules"].append(("(%s, %s)" % (inp, res), inp, rec))
+
+    def rules_tables(self):
+        import datetime
+        import re
+        from urllib.parse import urlsplit
+        ctx, rng = self.ctx, self.rng
+        quick = ctx.quick
+        NOW = self.NOW
+        O = "idpyoidc.message.oidc."
+        self.set_clock(True)
+        try:
+            self._rules_tables(O, NOW, quick, rng, datetime, re, urlsplit)
+        finally:
+            self.set_clock(False)
+
+    def _rules_tables(self, O, NOW, quick, rng, datetime, re, urlsplit):
+        def pick(rows, n):
+            rows = list(rows)
+            return rows if (not quick or len(rows) <= n) else rng.sample(rows, n)
+
+        # ---- error_description (oauth2.ResponseMessage and every subclass that only inherits it)
+        def o_resp(m, kw):
+            d = m._dict.get("error_description")
+            if isinstance(d, str) and not all(0x20 <= ord(c) <= 0x7e and c not in '"\\' for c in d):
+                return ["error_description outside %x20-21 / %x23-5B / %x5D-7E"]
+            return []
+        for cname in ("idpyoidc.message.oauth2.ResponseMessage", "idpyoidc.message.oauth2.TokenErrorResponse",
+                      O + "UserInfoErrorResponse"):
+            for desc in (None, "Bad thing!", "bad: thing", "quote\"", "tab\t", "åä", "x" * 5, "A B!"):
+                for err in (None, "invalid_request", "zz"):
+                    args = {}
+                    if desc is not None:
+                        args["error_description"] = desc
+                    if err:
+                        args["error"] = err
+                    self.rule_case("response", cname, args, {}, o_resp)
+
+        # ---- oauth2 / oidc AuthorizationResponse
+        def o_azr(m, kw):
+            bad = o_resp(m, kw)
+            d = m._dict
+            if "client_id" in d and "client_id" in kw and d["client_id"] != kw["client_id"]:
+                bad.append("client_id is not the expected one")
+            if "iss" in d and "iss" in kw and d["iss"] != kw["iss"]:
+                bad.append("iss is not the expected issuer")
+            if "aud" in d and "client_id" in kw and type(m).__module__.endswith("oidc"):
+                aud = d["aud"] if isinstance(d["aud"], list) else [d["aud"]]
+                if kw["client_id"] not in aud and not (isinstance(d["aud"], str) and kw["client_id"] in d["aud"]):
+                    bad.append("aud does not contain the client")
+            return bad
+        rows = itertools.product([None, "c"], [None, "c", "d"], [None, "https://i"], [None, "https://i", "https://j"],
+                                 [None, "fine text", "bad:1"], [None, ["c"], ["d", "e"], ["d", "c"], "c"])
+        for cid, kcid, iss, kiss, desc, aud in pick(rows, 160):
+            args = {"code": "x"}
+            kw = {}
+            if cid:
+                args["client_id"] = cid
+            if iss:
+                args["iss"] = iss
+            if desc:
+                args["error_description"] = desc
+            if kcid:
+                kw["client_id"] = kcid
+            if kiss:
+                kw["iss"] = kiss
+            if aud is None or aud == ["c"]:
+                self.rule_case("authzresp-oauth2", "idpyoidc.message.oauth2.AuthorizationResponse", dict(args), kw, o_azr)
+            if aud is not None:
+                args["aud"] = aud
+            self.rule_case("authzresp-oidc", O + "AuthorizationResponse", args, kw, o_azr)
+
+        # ---- RegistrationResponse
+        def o_regresp(m, kw):
+            return (["only one of registration_client_uri / registration_access_token"]
+                    if ("registration_client_uri" in m) != ("registration_access_token" in m) else []) + o_resp(m, kw)
+        for uri, at, desc in itertools.product([None, "https://op/reg?c=1"], [None, "tok"], [None, "fine", "bad:1"]):
             args = {"client_id": "c", "redirect_uris": ["https://rp/cb"]}
             if uri:
                 args["registration_client_uri"] = uri
             if at:
                 args["registration_access_token"] = at
-            m = RegistrationResponse(**args)
-            out = self.class_verify(m)
-            rec = {"class": "RegistrationResponse", "args": args}
-            ctx.case_seen(rec, out[0] == "accepted")
-            ctx.count("regresp:" + out[0])
-            if out[0] == "accepted":
-                if ("registration_client_uri" in m) != ("registration_access_token" in m):
-                    ctx.violation("rules:RegistrationResponse", "accepted with only one of registration_client_uri / registration_access_token: %r" % args, rec)
-                self.schema_oracle("RegistrationResponse", RegistrationResponse, m, rec, "verify()")
-        # RegistrationRequest: *_enc needs *_alg; initiate_login_uri https; auth signing alg not none
+            if desc:
+                args["error_description"] = desc
+            self.rule_case("regresp", O + "RegistrationResponse", args, {}, o_regresp)
+
+        # ---- RegistrationRequest
         pre = ["request_object_encryption", "id_token_encrypted_response", "userinfo_encrypted_response"]
-        for p in pre:
-            for alg, enc in itertools.product([None, "RSA-OAEP"], [None, "A128CBC-HS256"]):
-                for extra in ({}, {"initiate_login_uri": "http://rp/login"}, {"initiate_login_uri": "https://rp/login"},
-                              {"token_endpoint_auth_signing_alg": "none"}, {"token_endpoint_auth_signing_alg": "RS256"},
-                              {"application_type": "tv"}, {"subject_type": "odd"}):
-                    args = {"redirect_uris": ["https://rp/cb"]}
-                    if alg:
-                        args[p + "_alg"] = alg
-                    if enc:
-                        args[p + "_enc"] = enc
-                    args.update(extra)
-                    m = RegistrationRequest(**args)
-                    out = self.class_verify(m)
-                    rec = {"class": "RegistrationRequest", "args": args}
-                    ctx.case_seen(rec, out[0] == "accepted")
-                    ctx.count("regreq:" + out[0])
-                    if out[0] == "accepted":
-                        bad = []
-                        for q in pre:
-                            if (q + "_enc") in m and (q + "_alg") not in m:
-                                bad.append(q + "_enc without _alg")
-                        if "initiate_login_uri" in m and not m["initiate_login_uri"].startswith("https:"):
-                            bad.append("initiate_login_uri not https")
-                        if m.get("token_endpoint_auth_signing_alg") == "none":
-                            bad.append("token_endpoint_auth_signing_alg none")
-                        if bad:
-                            ctx.violation("rules:RegistrationRequest", "accepted %r: %s" % (args, bad), rec)
-                        self.schema_oracle("RegistrationRequest", RegistrationRequest, m, rec, "verify()")
-        # IdToken: issuer, audience / azp, expiry, issued-at, nonce
-        now = int(time.time())
-        for iss_kw, aud, azp, cid, dexp, diat, nonce, nonce_kw, skew in itertools.product(
-                [None, "https://op.example", "https://evil"], [["c"], ["c", "d"], ["d"]], [None, "c", "d", "z"],
-                [None, "c"], [600, -600], [0, 900, -20000], [None, "n"], [None, "n", "m"], [0]):
-            args = {"iss": "https://op.example", "sub": "s", "aud": aud, "exp": now + dexp, "iat": now + diat}
+
+        def o_regreq(m, kw):
+            bad = []
+            for q in pre:
+                if (q + "_enc") in m and (q + "_alg") not in m:
+                    bad.append(q + "_enc without _alg")
+            if "initiate_login_uri" in m and not str(m["initiate_login_uri"]).startswith("https:"):
+                bad.append("initiate_login_uri not https")
+            if m.get("token_endpoint_auth_signing_alg") == "none":
+                bad.append("token_endpoint_auth_signing_alg none")
+            return bad
+        ae = [(None, None), ("RSA-OAEP", None), (None, "A128GCM"), ("RSA-OAEP", "A256GCM")]
+        rows = itertools.product(ae, ae, ae, [None, "http://rp/login", "https://rp/login", "https:", "HTTPS://rp"],
+                                 [None, "none", "RS256"], [None, "tv"])
+        for p0, p1, p2, ilu, tesa, app in pick(rows, 250):
+            args = {"redirect_uris": ["https://rp/cb"]}
+            for q, (a, e) in zip(pre, (p0, p1, p2)):
+                if a:
+                    args[q + "_alg"] = a
+                if e:
+                    args[q + "_enc"] = e
+            if ilu:
+                args["initiate_login_uri"] = ilu
+            if tesa:
+                args["token_endpoint_auth_signing_alg"] = tesa
+            if app:
+                args["application_type"] = app
+            self.rule_case("regreq", O + "RegistrationRequest", args, {}, o_regreq)
+
+        # ---- ProviderConfigurationResponse
+        def o_pcr(m, kw):
+            bad = o_resp(m, kw)
+            d = m._dict
+            u = urlsplit(d["issuer"])
+            if "allow_http" not in kw and u.scheme != "https":
+                bad.append("issuer is not https")
+            if u.query or u.fragment:
+                bad.append("issuer has a query or fragment")
+            if "scopes_supported" in d and "openid" not in d["scopes_supported"]:
+                bad.append("scopes_supported lacks openid")
+            if "none" in d.get("token_endpoint_auth_signing_alg_values_supported", []):
+                bad.append("none among token_endpoint_auth_signing_alg_values_supported")
+            if all(a.lower() == "none" for a in d["id_token_signing_alg_values_supported"]):
+                bad.append("no real id_token signing algorithm")
+            # the code flow and every hybrid flow (a response type that contains the word code) need a token endpoint
+            if any("code" in rt.split(" ") for rt in d["response_types_supported"]) and "token_endpoint" not in d:
+                bad.append("code / hybrid response type without token_endpoint")
+            return bad
+        issuers = ["https://op.example", "http://op.example", "HTTPS://op.example", "https://op.example/path",
+                   "https://op.example?x=1", "https://op.example#frag", "https://op.example/p?", "https://op.example/#",
+                   "op.example", "https:op", "ftp://x", "://x", "1https://x", "https://op.example/a?b#c", "h+t.p-s://x",
+                   "https://op.example/a#?b", "https", "https://[::1]/x", "https://op.exämple"]
+        rts = [["code"], ["id_token"], ["id_token", "token id_token"], ["code id_token"], ["code token", "code id_token token"],
+               ["token", "xcodex"], ["none"], ["id_token", "code id_token"], ["id_token token", "code token"]]
+        tes = [None, "https://op/token"]
+        scopes = [None, ["openid"], ["profile"], ["openid", "a!b"], ["openid", "sp ace"], ["openid", "back\\slash"],
+                  ["openid", "tilde~{"], ["profile", "openid", "x\"y"]]
+        tealgs = [None, ["RS256"], ["none"], ["RS256", "none"]]
+        idalgs = [["RS256"], ["none"], ["None", "NONE"], ["none", "ES256"], ["HS256"]]
+        descs = [None, "Bad thing!", "bad: thing"]
+
+        def pcr(iss, rt, te, sc, ta, ia, allow, desc):
+            args = {"issuer": iss, "authorization_endpoint": "https://op/a", "jwks_uri": "https://op/j",
+                    "response_types_supported": rt, "subject_types_supported": ["public"],
+                    "id_token_signing_alg_values_supported": ia}
+            if te:
+                args["token_endpoint"] = te
+            if sc is not None:
+                args["scopes_supported"] = sc
+            if ta is not None:
+                args["token_endpoint_auth_signing_alg_values_supported"] = ta
+            if desc:
+                args["error_description"] = desc
+            self.rule_case("pcr", O + "ProviderConfigurationResponse", args, {"allow_http": True} if allow else {}, o_pcr)
+        b = ("https://op.example", ["code"], "https://op/token", ["openid"], ["RS256"], ["RS256"], False, None)
+        for rt, te in itertools.product(rts, tes):                      # every response-type set x token_endpoint
+            pcr(b[0], rt, te, *b[3:])
+        for iss, allow in itertools.product(issuers, [False, True]):    # every issuer shape x allow_http
+            pcr(iss, b[1], b[2], b[3], b[4], b[5], allow, None)
+        for sc in scopes:
+            pcr(b[0], b[1], b[2], sc, b[4], b[5], False, None)
+        for ta, ia in itertools.product(tealgs, idalgs):
+            pcr(b[0], b[1], b[2], b[3], ta, ia, False, None)
+        for d in descs:
+            pcr(*b[:7], d)
+        for row in pick(itertools.product(issuers[:8], rts, tes, scopes[:4], tealgs[:3], idalgs[:3], [False, True], descs[:2]),
+                        200 if quick else 4000):
+            pcr(*row)
+
+        # ---- OpenIDSchema: birthdate formats, None values
+        bd_re = re.compile(r"^(\d{4})-(1[0-2]|0[1-9]|[1-9])-(3[01]|[12]\d|0[1-9]| ?[1-9])$")
+
+        def o_openid(m, kw):
+            bad = o_resp(m, kw)
+            d = m._dict
+            if any(v is None for v in d.values()):
+                bad.append("a parameter holds None")
+            bd = d.get("birthdate")
+            if isinstance(bd, str):
+                ok = False
+                mt = bd_re.match(bd)
+                if mt:
+                    y, mo_, da = int(mt.group(1)), int(mt.group(2)), int(mt.group(3))
+                    try:
+                        datetime.date(y if y else 1904, mo_, da)
+                        ok = True
+                    except ValueError:
+                        ok = False
+                elif re.match(r"^\d{4}$", bd) and int(bd) >= 1:
+                    ok = True
+                if not ok:
+                    bad.append("birthdate is not YYYY-MM-DD, YYYY or 0000-MM-DD")
+            return bad
+        bds = [None, "1990-01-31", "1990-1-1", "1990-02-29", "2000-02-29", "1900-02-29", "2004-2-29", "0000-02-29",
+               "0000-02-30", "0000-12-25", "0000", "0001", "9999", "1990", "199", "19900", "1990-13-01", "1990-00-10",
+               "1990-01-00", "1990-01-32", "1990-04-31", "1990-01- 5", "1990-01-5 ", "1990- 1-05", "abcd", "1990-01",
+               "1990-01-01-01", "٢٠٢٠", "1990-011-1", "1990-1-011", "-1990", "1990-02-28", "1990-06-30",
+               "1990-06-31", "0000-01-01", "0000-1-1", "0000-00-10", "1990-10-10", "1990-12-31", "1990-09-31",
+               "0000-04-31", "0000-2-29", "2100-02-29", "2400-02-29", "1990-1-31", "1990-11-31", "1990/01/01", "1990-01-1O"]
+        for bd in bds:
+            for none_val in (False, True):
+                args = {"sub": "s"}
+                if bd is not None:
+                    args["birthdate"] = bd
+                inj = {"nickname": None} if none_val else None
+                self.rule_case("openid", O + "OpenIDSchema", args, {}, o_openid, inject=inj)
+
+        # ---- IdToken
+        def o_idt(m, kw):
+            d = m._dict
+            bad = []
+            skew = kw.get("skew", 0)
+            if "iss" in kw and kw["iss"] != d.get("iss"):
+                bad.append("issuer mismatch")
+            aud = d.get("aud", [])
+            if "client_id" in kw and kw["client_id"] not in aud:
+                bad.append("not in audience")
+            if len(aud) > 1 and d.get("azp") not in aud:
+                bad.append("several audiences without a matching azp")
+            if "azp" in d and "client_id" in kw and d["azp"] != kw["client_id"]:
+                bad.append("azp is another client")
+            if d["exp"] < NOW - skew:
+                bad.append("expired")
+            if d["iat"] > NOW + skew:
+                bad.append("issued in the future")
+            if d["iat"] + kw.get("nonce_storage_time", 4 * 3600) < NOW - skew:
+                bad.append("issued too long ago")
+            if d["exp"] < d["iat"]:
+                bad.append("expires before it was issued")
+            if "nonce" in kw and "nonce" in d and kw["nonce"] != d["nonce"]:
+                bad.append("nonce mismatch")
+            return bad
+        rows = itertools.product([None, "https://op.example", "https://evil"], [["c"], ["c", "d"], ["d"], ["d", "c", "e"]],
+                                 [None, "c", "d", "z"], [None, "c"], [600, -600, -1, 0, 1], [0, 900, -20000, 1, -14400, -14401],
+                                 [None, "n"], [None, "n", "m"], [None, 1000], [None, 100])
+        for iss_kw, aud, azp, cid, dexp, diat, nonce, nonce_kw, skew, storage in pick(rows, 350):
+            args = {"iss": "https://op.example", "sub": "s", "aud": aud, "exp": NOW + dexp, "iat": NOW + diat}
             if azp:
                 args["azp"] = azp
             if nonce:
                 args["nonce"] = nonce
             kw = {}
-            if iss_kw:
-                kw["iss"] = iss_kw
-            if cid:
-                kw["client_id"] = cid
-            if nonce_kw:
-                kw["nonce"] = nonce_kw
-            if ctx.quick and self.rng.random() > 0.12:
+            for k, v in (("iss", iss_kw), ("client_id", cid), ("nonce", nonce_kw), ("skew", skew), ("nonce_storage_time", storage)):
+                if v is not None:
+                    kw[k] = v
+            self.rule_case("idtoken", O + "IdToken", args, kw, o_idt)
+
+        # ---- JsonWebToken / AuthnToken
+        def o_jwt(m, kw):
+            d = m._dict
+            bad = []
+            skew = kw.get("skew", 0)
+            if "exp" in d and d["exp"] < NOW - skew:
+                bad.append("expired")
+            if "iat" in d and d["iat"] > NOW + skew:
+                bad.append("issued in the future")
+            if "nbf" in d and d["nbf"] > NOW + skew:
+                bad.append("not valid yet")
+            if "aud" in d and "aud" in kw and kw["aud"] not in d["aud"]:
+                bad.append("not among the audience")
+            if "iss" in d and "iss" in kw and kw["iss"] != d["iss"]:
+                bad.append("wrong issuer")
+            return bad
+        rows = itertools.product([None, 600, -600, 0], [None, 0, 900, 1], [None, -10, 900, 0], [None, ["c"], ["d", "c"], ["d"]],
+                                 [None, "c", "z"], [None, "i"], [None, "i", "j"], [None, 1000])
+        for dexp, diat, dnbf, aud, aud_kw, iss, iss_kw, skew in pick(rows, 300):
+            args = {}
+            for k, v in (("exp", dexp), ("iat", diat), ("nbf", dnbf)):
+                if v is not None:
+                    args[k] = NOW + v
+            if aud:
+                args["aud"] = aud
+            if iss:
+                args["iss"] = iss
+            kw = {}
+            for k, v in (("aud", aud_kw), ("iss", iss_kw), ("skew", skew)):
+                if v is not None:
+                    kw[k] = v
+            self.rule_case("jwt", O + "JsonWebToken", args, kw, o_jwt)
+            if quick and rng.random() < 0.8:
                 continue
-            m = IdToken(**args)
-            out = self.class_verify(m, **kw)
-            rec = {"class": "IdToken", "args": dict(args, exp=dexp, iat=diat), "verify_kwargs": kw}
-            ctx.case_seen(rec, out[0] == "accepted")
-            ctx.count("idtoken:" + out[0])
-            if out[0] == "accepted":
-                bad = []
-                if iss_kw and iss_kw != args["iss"]:
-                    bad.append("issuer mismatch")
-                if cid and cid not in aud:
-                    bad.append("not in audience")
-                if len(aud) > 1 and (not azp or azp not in aud):
-                    bad.append("several audiences without a matching azp")
-                if azp and cid and azp != cid:
-                    bad.append("azp is another client")
-                if dexp < 0:
-                    bad.append("expired")
-                if diat > 0 and diat > 5:
-                    bad.append("issued in the future")
-                if diat < -4 * 3600:
-                    bad.append("issued too long ago")
-                if dexp < diat:
-                    bad.append("expires before it was issued")
-                if nonce and nonce_kw and nonce != nonce_kw:
-                    bad.append("nonce mismatch")
-                if bad:
-                    ctx.violation("rules:IdToken", "verify(%r) accepted %r: %s" % (kw, rec["args"], bad), rec)
-                self.schema_oracle("IdToken", IdToken, m, rec, "verify()")
+            a2 = dict(args)
+            a2.pop("nbf", None)
+            a2.setdefault("iss", "i")
+            a2.setdefault("aud", ["c"])
+            a2.setdefault("exp", NOW + 600)
+            a2.update(sub="s", jti="j")
+            self.rule_case("jwt", O + "AuthnToken", a2, kw, o_jwt)
+
+        # ---- LogoutToken
+        EV = "http://schemas.openid.net/event/backchannel-logout"
+
+        def o_logout(m, kw):
+            d = m._dict
+            bad = []
+            if "nonce" in d:
+                bad.append("nonce present")
+            if d.get("events") != {EV: {}}:
+                bad.append("events is not exactly the back-channel logout event with an empty object")
+            if "sub" not in d and "sid" not in d:
+                bad.append("neither sub nor sid")
+            if "aud" in kw and kw["aud"] not in d["aud"]:
+                bad.append("not among the audience")
+            if "iss" in kw and kw["iss"] != d["iss"]:
+                bad.append("wrong issuer")
+            if "iat" in d and d["iat"] > NOW + kw.get("skew", 0):
+                bad.append("issued in the future")
+            return bad
+        events = [{EV: {}}, {}, {EV: {}, "x": {}}, {"other": {}}, {EV: {"a": 1}}, {EV: []}, {"x": {}, EV: {}}]
+        rows = itertools.product([False, True], events, ["sub", "sid", "both", "neither"], [None, "c", "z"],
+                                 [None, "https://op.example", "https://evil"], [0, 900, 1], [None, 1000], [["c"], ["d", "c"]])
+        for nonce, ev, ss, aud_kw, iss_kw, diat, skew, aud in pick(rows, 300):
+            args = {"iss": "https://op.example", "aud": aud, "iat": NOW + diat, "jti": "j", "events": ev}
+            if ss in ("sub", "both"):
+                args["sub"] = "s"
+            if ss in ("sid", "both"):
+                args["sid"] = "sid1"
+            if nonce:
+                args["nonce"] = "n"
+            kw = {}
+            for k, v in (("aud", aud_kw), ("iss", iss_kw), ("skew", skew)):
+                if v is not None:
+                    kw[k] = v
+            self.rule_case("logout", O + "session.LogoutToken", args, kw, o_logout)
+
+        # ---- EndSessionRequest (without id_token_hint; with one: signed-object matrix)
+        def o_end(m, kw):
+            return ["post_logout_redirect_uri without id_token_hint"] \
+                if "post_logout_redirect_uri" in m and "id_token_hint" not in m else []
+        for plr, state, loc in itertools.product([None, "https://rp/out"], [None, "s"], [None, ["en", "fr"]]):
+            args = {}
+            if plr:
+                args["post_logout_redirect_uri"] = plr
+            if state:
+                args["state"] = state
+            if loc:
+                args["ui_locales"] = loc
+            self.rule_case("endsession", O + "session.EndSessionRequest", args, {}, o_end)
 
     # ------------------------------------------------------------ D. embedded signed objects
     def signed_objects(self):
@@ -616,11 +917,12 @@ class Run:
 
     def run_model(self):
         ctx = self.ctx
-        cap = 1200 if ctx.quick else 10 ** 9
         for kind, ty, chk, fn in (("verify", "pystr * msg * res unit", "chk_verify", "m_verify"),
                                   ("construct", "pystr * msg * res msg", "chk_construct", "m_construct"),
-                                  ("authz", "pystr * option pystr * msg * res msg", "chk_authz", "m_authz")):
+                                  ("authz", "pystr * option pystr * msg * res msg", "chk_authz", "m_authz"),
+                                  ("rules", "rules_case * res (bool * msg)", "chk_rules", "m_rules")):
             cs = self.cases[kind]
+            cap = (1200 if kind != "rules" else 4000) if ctx.quick else 10 ** 9
             if len(cs) > cap:
                 cs = self.rng.sample(cs, cap)
             ctx.count("model-cases:" + kind, len(cs))
@@ -634,7 +936,7 @@ def run(ctx):
     r.faults()
     r.slots()
     r.authz_table()
-    r.other_rules()
+    r.rules_tables()
     r.signed_objects()
     r.run_model()
     ctx.count("classes-whose-verify-accepted-the-base-message", len(r.accepting))
